@@ -566,6 +566,22 @@ def literal_texts(quick):
                 'select $$' + m + '$$', 'select $a$' + m + '$a$',
                 "select b'" + m + "'", 'select b"' + m + '"',
                 "select rb'" + m + "'", "select br'" + m + "'"]
+    # every code point of the first two blocks, the general punctuation
+    # block (bidi / invisible characters) and a few boundary values: raw in
+    # a string (when the lexer accepts it) and as \x / \u / \U escapes
+    cps = list(range(1, 0x100)) + list(range(0x2000, 0x2070)) + [
+        0x37e, 0x7ff, 0x800, 0xd7ff, 0xe000, 0xfeff, 0xfffd, 0xffff,
+        0x10000, 0x1f600, 0x10ffff]
+    for cp in cps:
+        ch = chr(cp)
+        out += [f"select 'a{ch}b'", f"select '\\u{cp:04x}'" if cp <= 0xffff
+                else f"select '\\U{cp:08x}'", f"select '\\U{cp:08x}z'",
+                f'select "{ch}"', f"select r'{ch}'"]
+        if cp < 0x100:
+            out += [f"select '\\x{cp:02x}'", f"select 'q\\x{cp:02x}q'",
+                    f"select b'\\x{cp:02x}'"]
+        if cp < 0x80:
+            out.append(f"select b'{ch}'")
     nums = ['0', '1', '00' if False else '9223372036854775807',
             '9223372036854775808', '1_000', '1e3', '1E3', '1e+3', '1e-3',
             '1.5', '1.5e10', '0.0', '1_0.0_1', '1n', '1_000n', '1e3n',
